@@ -35,12 +35,17 @@ static matrix *mk(const double *a, int r, int c){ matrix *m; NewMatrix(&m, r, c)
 static matrix *mky(const int *lab, int n){ matrix *m; NewMatrix(&m, n, 1); for(int i = 0; i < n; i++) m->data[i][0] = (double)lab[i]; return m; }
 
 typedef struct { LDAMODEL *m; matrix *pf, *pr, *mn, *pred; } fitres;
-static void fit_predict(const double *X, const int *lab, int n, int d, const double *T, int nt, fitres *f, int stage_fit, int stage_pred){
+/* outputs for LDAPrediction: fresh (reuse == NULL) or REUSED - copies of an earlier call's outputs, i.e. already sized and non-zero */
+static void out_init(fitres *f, fitres *reuse){
+  initMatrix(&f->pf); initMatrix(&f->pr); initMatrix(&f->mn); initMatrix(&f->pred);
+  if(reuse){ MatrixCopy(reuse->pf, &f->pf); MatrixCopy(reuse->pr, &f->pr); MatrixCopy(reuse->mn, &f->mn); MatrixCopy(reuse->pred, &f->pred); }
+}
+static void fit_predict_r(const double *X, const int *lab, int n, int d, const double *T, int nt, fitres *f, int stage_fit, int stage_pred, fitres *reuse){
   matrix *x = mk(X, n, d), *y = mky(lab, n), *t = mk(T, nt, d);
   NewLDAModel(&f->m);
   *g_stage = stage_fit;
   LDA(x, y, f->m);
-  initMatrix(&f->pf); initMatrix(&f->pr); initMatrix(&f->mn); initMatrix(&f->pred);
+  out_init(f, reuse);
   if(stage_pred >= 0){
     *g_stage = stage_pred;
     LDAPrediction(t, f->m, f->pf, f->pr, f->mn, f->pred);
@@ -48,6 +53,7 @@ static void fit_predict(const double *X, const int *lab, int n, int d, const dou
   *g_stage = 6;
   DelMatrix(&x); DelMatrix(&y); DelMatrix(&t);
 }
+static void fit_predict(const double *X, const int *lab, int n, int d, const double *T, int nt, fitres *f, int stage_fit, int stage_pred){ fit_predict_r(X, lab, n, d, T, nt, f, stage_fit, stage_pred, NULL); }
 static void fit_free(fitres *f){ DelLDAModel(&f->m); DelMatrix(&f->pf); DelMatrix(&f->pr); DelMatrix(&f->mn); DelMatrix(&f->pred); }
 
 /* max over test objects and class pairs of |D_kl - D'_kl| / max(1,|D_kl|); *same = predictions identical */
@@ -182,30 +188,55 @@ static int run_case(void *arg){
     VRT_EMIT("{\"e\":\"Disc\",\"err\":%ld,\"pinv\":%d,\"kf\":%ld,\"invres\":%ld,\"cov\":\"%s\"}", vq12(w), pinv, vq_unit(kf, 1.0), vq12(ires), wi ? "within" : "total"); }
   VRT_EMIT("{\"e\":\"EndPred\",\"n\":%d,\"rows\":%zu}", c->nt, f.pred->row);
   DelMatrix(&t);
+  /* -- a second call with REUSED outputs (already sized, holding the first call's non-zero results) on an equally sized object
+   *    set (the test objects in reverse order) must return what a fresh call returns */
+  { int nt = c->nt; double *Tr = malloc(sizeof(double) * nt * d);
+    for(int i = 0; i < nt; i++) memcpy(Tr + i * d, c->T + (nt - 1 - i) * d, sizeof(double) * d);
+    matrix *tr = mk(Tr, nt, d); fitres g2; g2.m = m; out_init(&g2, &f);
+    *g_stage = 2;
+    LDAPrediction(tr, m, g2.pf, g2.pr, g2.mn, g2.pred);
+    *g_stage = 6;
+    double w = 0; int same = g2.pr->row == f.pr->row && g2.pr->col == f.pr->col && g2.pred->row == f.pred->row;
+    if(same) for(int i = 0; i < nt; i++){
+      if(g2.pred->data[i][0] != f.pred->data[nt - 1 - i][0]) same = 0;
+      for(size_t k = 0; k < f.pr->col; k++){ double a = f.pr->data[nt - 1 - i][k], b2 = g2.pr->data[i][k]; double e = fabs(a - b2) / fmax(1.0, fabs(a)); if(!(e == e)) e = 1e300; if(e > w) w = e; } }
+    else w = 1e300;
+    VRT_EMIT("{\"e\":\"Reuse\",\"err\":%ld,\"same\":%d,\"rows\":%zu,\"n\":%d}", vq12(w), same, g2.pred->row, nt);
+    DelMatrix(&g2.pf); DelMatrix(&g2.pr); DelMatrix(&g2.mn); DelMatrix(&g2.pred); DelMatrix(&tr); free(Tr); }
   if(!c->exact){
     vrng R = { c->pairseed };
-    /* -- affine re-coding of train and test: x -> A x + b, A = Q1 diag(s) Q2, cond(A) <= 100 */
+    /* -- affine re-coding of train and test: x -> A x + b, cond(A) <= 100, in feature UNIT SYSTEMS: a dense map A = Q1 diag(s) Q2 and
+     *    a diagonal one (per-feature units), overall scale from 1e-3 up to 1e4; in the "large" regime every variance is large (raw
+     *    units: LDA() takes its pseudo-inverse branch) and the condition number is 32..100.  The re-coded data are predicted into
+     *    REUSED output matrices (copies of the base results). */
     double Q1[MAXD][MAXD], Q2[MAXD][MAXD], A[MAXD][MAXD], b[MAXD], s[MAXD];
-    orth(&R, d, Q1); orth(&R, d, Q2);
-    double g = pow(10.0, vr_unif(&R) * 2.0 - 1.0), kap = pow(10.0, vr_unif(&R) * 2.0);
-    for(int j = 0; j < d; j++) s[j] = g * pow(kap, d > 1 ? (double)j / (d - 1) : 0.0);
-    for(int i = 0; i < d; i++){ b[i] = 10.0 * g * vr_norm(&R); for(int j = 0; j < d; j++){ double v = 0; for(int q = 0; q < d; q++) v += Q1[i][q] * s[q] * Q2[q][j]; A[i][j] = v; } }
     double *X2 = malloc(sizeof(double) * n * d), *T2 = malloc(sizeof(double) * c->nt * d);
-    for(int i = 0; i < n; i++) for(int j = 0; j < d; j++){ double v = b[j]; for(int q = 0; q < d; q++) v += A[j][q] * c->X[i * d + q]; X2[i * d + j] = v; }
-    for(int i = 0; i < c->nt; i++) for(int j = 0; j < d; j++){ double v = b[j]; for(int q = 0; q < d; q++) v += A[j][q] * c->T[i * d + q]; T2[i * d + j] = v; }
-    fitres f2; int same;
-    fit_predict(X2, c->lab, n, d, T2, c->nt, &f2, 3, 3);
-    double e = pair_err(f.pr, f.pred, f2.pr, f2.pred, &same);
-    int pinv, wi; double kf, ires; inv_diag(X2, c->lab, n, d, f2.m->inv_cov, &pinv, &kf, &ires, &wi);
-    VRT_EMIT("{\"e\":\"Pair\",\"kind\":\"affine\",\"err\":%ld,\"same\":%d,\"cond\":%ld,\"scale\":%ld,\"pinv\":%d,\"kf\":%ld,\"invres\":%ld}", vq12(e), same, vq_unit(kap, 1e-3), vq_unit(g, 1e-3), pinv, vq_unit(fmax(kf, kf0), 1.0), vq12(ires));
-    fit_free(&f2);
+    for(int map = 0; map < 2; map++){
+      int large = vr_unif(&R) < 0.5;
+      double kap = large ? pow(10.0, 1.5 + 0.5 * vr_unif(&R)) : pow(10.0, 2.0 * vr_unif(&R));
+      double g = large ? 10.0 * pow(1e3 / kap, vr_unif(&R)) : pow(10.0, -3.0 + 5.0 * vr_unif(&R));     /* g * kap <= 1e4 */
+      s[0] = g; for(int j = 1; j < d; j++) s[j] = g * pow(kap, j == d - 1 ? 1.0 : vr_unif(&R));
+      for(int j = d - 1; j > 0; j--){ int q = (int)vr_int(&R, 0, j); double tv = s[j]; s[j] = s[q]; s[q] = tv; }
+      if(map == 0){ orth(&R, d, Q1); orth(&R, d, Q2); }
+      else for(int i = 0; i < d; i++) for(int j = 0; j < d; j++) Q1[i][j] = Q2[i][j] = (i == j);
+      for(int i = 0; i < d; i++){ b[i] = 10.0 * (map ? s[i] : g) * vr_norm(&R); for(int j = 0; j < d; j++){ double v = 0; for(int q = 0; q < d; q++) v += Q1[i][q] * s[q] * Q2[q][j]; A[i][j] = v; } }
+      for(int i = 0; i < n; i++) for(int j = 0; j < d; j++){ double v = b[j]; for(int q = 0; q < d; q++) v += A[j][q] * c->X[i * d + q]; X2[i * d + j] = v; }
+      for(int i = 0; i < c->nt; i++) for(int j = 0; j < d; j++){ double v = b[j]; for(int q = 0; q < d; q++) v += A[j][q] * c->T[i * d + q]; T2[i * d + j] = v; }
+      fitres f2; int same;
+      fit_predict_r(X2, c->lab, n, d, T2, c->nt, &f2, 3, 3, &f);
+      double e = pair_err(f.pr, f.pred, f2.pr, f2.pred, &same);
+      int pinv, wi; double kf, ires; inv_diag(X2, c->lab, n, d, f2.m->inv_cov, &pinv, &kf, &ires, &wi);
+      VRT_EMIT("{\"e\":\"Pair\",\"kind\":\"affine\",\"map\":\"%s\",\"large\":%d,\"err\":%ld,\"same\":%d,\"cond\":%ld,\"scale\":%ld,\"pinv\":%d,\"kf\":%ld,\"invres\":%ld}", map ? "diag" : "dense", large, vq12(e), same, vq_unit(kap, 1e-3), vq_unit(g, 1e-3), pinv, vq_unit(fmax(kf, kf0), 1.0), vq12(ires));
+      fit_free(&f2);
+    }
+    int same; double e;
     /* -- reordering of the training objects */
     int *perm = malloc(sizeof(int) * n), *lab3 = malloc(sizeof(int) * n);
     for(int i = 0; i < n; i++) perm[i] = i;
     for(int i = n - 1; i > 0; i--){ int j = (int)vr_int(&R, 0, i); int tt = perm[i]; perm[i] = perm[j]; perm[j] = tt; }
     for(int i = 0; i < n; i++){ lab3[i] = c->lab[perm[i]]; memcpy(X2 + i * d, c->X + perm[i] * d, sizeof(double) * d); }
     fitres f3;
-    fit_predict(X2, lab3, n, d, c->T, c->nt, &f3, 4, 4);
+    fit_predict_r(X2, lab3, n, d, c->T, c->nt, &f3, 4, 4, &f);
     e = pair_err(f.pr, f.pred, f3.pr, f3.pred, &same);
     VRT_EMIT("{\"e\":\"Pair\",\"kind\":\"perm\",\"err\":%ld,\"same\":%d,\"cond\":0,\"scale\":0,\"kf\":%ld}", vq12(e), same, vq_unit(kf0, 1.0));
     fit_free(&f3);
